@@ -1,0 +1,111 @@
+//! Verification hooks (only compiled with `--cfg regexml_verif`).
+//!
+//! Renders the compiled operator tree and the compile-time facts of a
+//! `ReProgram` as JSON so that an external checker can compare them with a
+//! specification. Nothing here is used by the library itself.
+
+use crate::character_class::CharacterClass;
+use crate::operation::{Operation, OperationControl};
+use crate::re_program::{ReProgram, OPT_HASBACKREFS, OPT_HASBOL};
+
+fn chars_json(chars: &[char]) -> String {
+    let v: Vec<String> = chars.iter().map(|c| (*c as u32).to_string()).collect();
+    format!("[{}]", v.join(","))
+}
+
+fn class_json(cc: &CharacterClass) -> String {
+    let v: Vec<String> = cc
+        .as_code_point_inversion_list()
+        .iter_ranges()
+        .map(|r| format!("[{},{}]", r.start(), r.end()))
+        .collect();
+    format!("[{}]", v.join(","))
+}
+
+fn max_json(max: usize) -> String {
+    if max == usize::MAX {
+        "-1".to_string()
+    } else {
+        max.to_string()
+    }
+}
+
+fn repeat_json(kind: &str, op: &Operation) -> String {
+    let r = op.repeat_operation().unwrap();
+    format!(
+        "{{\"k\":\"{}\",\"min\":{},\"max\":{},\"greedy\":{},\"r\":{}}}",
+        kind,
+        r.min(),
+        max_json(r.max()),
+        r.greedy(),
+        op_json(&r.child())
+    )
+}
+
+pub(crate) fn op_json(op: &Operation) -> String {
+    match op {
+        Operation::Bol(_) => "{\"k\":\"bol\"}".to_string(),
+        Operation::Eol(_) => "{\"k\":\"eol\"}".to_string(),
+        Operation::Nothing(_) => "{\"k\":\"nothing\"}".to_string(),
+        Operation::EndProgram(_) => "{\"k\":\"end\"}".to_string(),
+        Operation::Atom(a) => format!("{{\"k\":\"atom\",\"cs\":{}}}", chars_json(&a.atom)),
+        Operation::CharClass(c) => {
+            format!("{{\"k\":\"class\",\"set\":{}}}", class_json(&c.character_class))
+        }
+        Operation::BackReference(b) => format!("{{\"k\":\"bref\",\"n\":{}}}", b.verif_group_nr()),
+        Operation::Capture(c) => format!(
+            "{{\"k\":\"capture\",\"n\":{},\"r\":{}}}",
+            c.verif_group_nr(),
+            op_json(&c.child_op)
+        ),
+        Operation::Choice(_) => {
+            let v: Vec<String> = op.children().iter().map(op_json).collect();
+            format!("{{\"k\":\"choice\",\"xs\":[{}]}}", v.join(","))
+        }
+        Operation::Sequence(s) => {
+            let v: Vec<String> = s.operations.iter().map(op_json).collect();
+            format!("{{\"k\":\"sequence\",\"xs\":[{}]}}", v.join(","))
+        }
+        Operation::Repeat(_) => repeat_json("repeat", op),
+        Operation::GreedyFixed(_) => repeat_json("greedyfixed", op),
+        Operation::ReluctantFixed(_) => repeat_json("reluctantfixed", op),
+        Operation::UnambiguousRepeat(_) => repeat_json("unambiguous", op),
+    }
+}
+
+pub(crate) fn facts_json(p: &ReProgram) -> String {
+    let prefix = match &p.prefix {
+        Some(pr) => chars_json(pr),
+        None => "null".to_string(),
+    };
+    let initial = match &p.initial_char_class {
+        Some(cc) => class_json(cc),
+        None => "null".to_string(),
+    };
+    let pre: Vec<String> = p
+        .preconditions
+        .iter()
+        .map(|pc| {
+            format!(
+                "{{\"op\":{},\"fixed\":{},\"min\":{}}}",
+                op_json(&pc.operation),
+                match pc.fixed_position {
+                    Some(f) => f.to_string(),
+                    None => "-1".to_string(),
+                },
+                pc.min_position
+            )
+        })
+        .collect();
+    format!(
+        "{{\"prefix\":{},\"initial\":{},\"minlen\":{},\"hasbol\":{},\"hasbackrefs\":{},\"maxparens\":{},\"pre\":[{}],\"ops\":{}}}",
+        prefix,
+        initial,
+        p.minimum_length,
+        p.optimization_flags & OPT_HASBOL != 0,
+        p.optimization_flags & OPT_HASBACKREFS != 0,
+        p.max_parens.unwrap_or(0),
+        pre.join(","),
+        op_json(&p.operation)
+    )
+}
